@@ -17,6 +17,8 @@ Record case := mkCase {
   c_db0 : list (Z * entry);
   c_cmds : list cmd;
   o_steps : list ostep;
+  o_c05 : list (bool * Z * Z);   (* per command (used by Drv/StartupC05.v only): anything but the controller wrote the fan's
+                                    files during the start?, control cycles completed, third-party counter after them *)
 }.
 
 (* ---- the model on the same input ---- *)
@@ -274,8 +276,8 @@ Proof. intros id. unfold tracker0. cbn. repeat split. discriminate. Qed.
 
 (* whatever the model produces passes the observer: model = implementation on a case (mismatch = false)
    therefore implies that the case holds *)
-Theorem model_output_holds : forall fans db0 cmds,
-  holdsb (mkCase fans db0 cmds (model_steps (fleet_of fans) (db_of db0) cmds)) = true.
+Theorem model_output_holds : forall fans db0 cmds x,
+  holdsb (mkCase fans db0 cmds (model_steps (fleet_of fans) (db_of db0) cmds) x) = true.
 Proof.
   intros. apply holdsb_spec. unfold Holds. cbn [c_fans c_db0 c_cmds o_steps].
   apply model_annot_holds. apply Rel_init.
@@ -299,7 +301,7 @@ Qed.
 (* agreement with the model on a case implies the property on that case *)
 Theorem no_mismatch_holds c : mismatch c = false -> holdsb c = true.
 Proof.
-  destruct c as [fans db0 cmds o]. unfold mismatch. cbn [c_fans c_db0 c_cmds o_steps].
+  destruct c as [fans db0 cmds o x]. unfold mismatch. cbn [c_fans c_db0 c_cmds o_steps].
   intros H. apply negb_false_iff in H. apply (list_eqb_true ostep_eqb ostep_eqb_true) in H. subst o.
   apply model_output_holds.
 Qed.
